@@ -268,12 +268,12 @@ func (r *c18Rec) count(f func(c18Del) bool) int {
 // ---- the world: simulator + real clients + real factory ----
 
 type c18World struct {
-	srv       *verifsim.Server
-	resources *dynamicdiscovery.ResourceMap
-	factory   *SharedInformerFactory
-	nres      int
-	sentinels map[*sharedResourceInformer]*c18Sentinel
-	tr        *c18Transport
+	srv           *verifsim.Server
+	resources     *dynamicdiscovery.ResourceMap
+	factory       *SharedInformerFactory
+	nres          int
+	tr            *c18Transport
+	barrierBroken bool
 }
 
 // c18Sentinel is the harness's completion signal. The informer hands
@@ -283,7 +283,8 @@ type c18World struct {
 // addHandler, under a wrapper nobody else holds) and pushes a marker object
 // through the same watch: when the sentinel has seen the marker go, every
 // earlier notification has been fanned out. The sentinel is in no reference
-// count and is invisible to the recording handlers.
+// count, is invisible to the recording handlers, and is in the table only while
+// a barrier runs.
 type c18Sentinel struct {
 	mu sync.Mutex
 	n  int
@@ -314,7 +315,7 @@ func newC18World(nres int) *c18World {
 		panic(err)
 	}
 	return &c18World{srv: srv, resources: resources, factory: NewSharedInformerFactory(clientset, c18Relist), nres: nres,
-		sentinels: map[*sharedResourceInformer]*c18Sentinel{}, tr: tr}
+		tr: tr}
 }
 
 // reveal makes discovery serve resource r and waits until the (real) resource
@@ -341,12 +342,17 @@ func (w *c18World) curSRI(r int) *sharedResourceInformer {
 	return w.factory.sharedInformers[w.key(r)]
 }
 
-func (w *c18World) ensureSentinel(sri *sharedResourceInformer) *c18Sentinel {
-	if s := w.sentinels[sri]; s != nil {
-		return s
+// barrier returns once everything the running informer of r was sent so far
+// has been delivered to the handlers. The sentinel is in the real table only
+// for the duration of the barrier (added through the real addHandler under a
+// wrapper nobody else holds, taken out through the real removeHandlers), so
+// that between barriers the table holds exactly what the subscribers put there.
+func (w *c18World) barrier(r int, sri *sharedResourceInformer) bool {
+	if w.barrierBroken {
+		time.Sleep(2 * time.Millisecond)
+		return false
 	}
 	s := &c18Sentinel{}
-	w.sentinels[sri] = s
 	iw := &informerWrapper{SharedIndexInformer: sri.informer, sharedResourceInformer: sri}
 	sri.eventHandlers.addHandler(iw, cache.ResourceEventHandlerFuncs{
 		DeleteFunc: func(obj interface{}) {
@@ -360,21 +366,19 @@ func (w *c18World) ensureSentinel(sri *sharedResourceInformer) *c18Sentinel {
 			}
 		},
 	}, c18Relist)
-	return s
-}
-
-// barrier returns once everything the running informer of r was sent so far
-// has been delivered to the handlers.
-func (w *c18World) barrier(r int, sri *sharedResourceInformer) bool {
-	s := w.ensureSentinel(sri)
-	before := s.seen()
+	defer sri.eventHandlers.removeHandlers(iw)
 	res := c18Resources[r]
 	stored := w.srv.Seed(map[string]interface{}{"apiVersion": res.APIVersion(), "kind": res.Kind,
 		"metadata": map[string]interface{}{"name": c18Marker, "namespace": c18Namespace}})
 	w.srv.Emit("ADDED", stored)
 	w.srv.RemoveLive(res.APIVersion(), res.Kind, c18Namespace, c18Marker)
 	w.srv.Emit("DELETED", stored)
-	return c18Until(2*time.Second, func() bool { return s.seen() > before })
+	if !c18Until(500*time.Millisecond, func() bool { return s.seen() > 0 }) {
+		// the fan-out does not work any more; do not wait again in this case
+		w.barrierBroken = true
+		return false
+	}
+	return true
 }
 
 func (w *c18World) watchCount(r int) int {
@@ -1441,6 +1445,13 @@ func c18Corpus() []c18Spec {
 		// once known: subscribe, close (stopped), subscribe again (fresh), close
 		mk(3, []string{"failed-subscribe", "resubscribe-after-last-close"}, c18Op{Kind: "subu", R: 2}, c18Op{Kind: "subu", R: 2}, c18Op{Kind: "reveal", R: 2},
 			sub(2), add(0, 0), ev(2, "ADDED", 0), cl(0), ev(2, "ADDED", 1), sub(2), add(1, 1), ev(2, "MODIFIED", 0), cl(1)),
+		// the handler table goes empty while a subscription stays open; a handler added
+		// afterwards must get its replay AND the later events
+		mk(1, []string{"shared-informer", "table-empty-then-add"}, sub(0), add(0, 0), sub(0), ev(0, "ADDED", 0), rem(0), cl(0), add(1, 1), ev(0, "MODIFIED", 0), ev(0, "ADDED", 1), cl(1)),
+		mk(1, []string{"table-empty-then-add"}, sub(0), add(0, 0), rem(0), rem(0), ev(0, "ADDED", 0), add(0, 1), ev(0, "DELETED", 0), cl(0)),
+		// own resync timers of two subscribers: removal stops exactly the remover's timers
+		mk(1, []string{"own-timer", "tick-after-remove", "shared-informer"}, sub(0), sub(0), ev(0, "ADDED", 0), ev(0, "ADDED", 1), addown(0, 0), addown(1, 1), addown(0, 2),
+			rem(0), tick(0, 0), tick(0, 2), tick(1, 1), cl(0), tick(1, 1), rem(1), tick(1, 1), cl(1)),
 		// a stale own timer (informer stopped, handlers never removed) keeps replaying the old cache
 		mk(1, []string{"own-timer"}, sub(0), ev(0, "ADDED", 0), addown(0, 0), cl(0), ev(0, "ADDED", 1), tick(0, 0), sub(0), addown(1, 1), tick(1, 1), rem(0), tick(0, 0), cl(1)),
 	}
@@ -1554,8 +1565,8 @@ func TestVerif_C18(t *testing.T) {
 			push(fmt.Sprintf("ka%d", i), s)
 		}
 		// exhaustive part: every sequence over 2 subscribers and 1 resource
-		// (quick: up to length 5, with own-timer moves up to 3; thorough: 6 and 5)
-		plainMax, ownMax := 5, 3
+		// (quick: up to length 5, with own-timer moves up to 4; thorough: 6 and 5)
+		plainMax, ownMax := 5, 4
 		if env.Tier == "thorough" {
 			plainMax, ownMax = 6, 5
 		}
